@@ -180,6 +180,10 @@ def install(E):
         kindmap = {"str": VStr, "bytes": VBytes, "int": VInt, "bool": VBool, "float": VReal, "dict": VDict, "list": VList, "tuple": VTuple}
         for n in names:
             if n in kindmap:
+                if isinstance(v, VObj) and M.get(("isinstance", v.cls)):
+                    if M[("isinstance", v.cls)](ctx, v, n):
+                        return VBool(True)
+                    continue
                 if isinstance(v, kindmap[n]):
                     return VBool(True)
                 if n == "int" and isinstance(v, VBool):
